@@ -58,6 +58,13 @@ def with_system(f):
     return g
 
 
+def c01(ctx):
+    m_volatile.run(ctx)
+    # accessors handed out at region and guest-memory level (get_slice / get_host_address of regions based at non-zero
+    # guest addresses, offsets around the region's length): boundary-biased histories judged by GuestMem's query rules
+    m_guest.traces(ctx, zst=False)
+
+
 def c05(ctx):
     both(ctx)
     m_system.run(ctx)
@@ -73,7 +80,7 @@ def c12(ctx):
 PROPS = {
     "C02": m_guest.run,
     "C03": with_system(m_guest.run),
-    "C01": m_volatile.run,
+    "C01": c01,
     "C04": m_volatile.run,
     "C05": c05,
     "C15": m_xen.xctor,
